@@ -206,6 +206,12 @@ func genPageCase(t *rapid.T, o pageGenOpts) PageCase {
 	for i := 0; i < nvals; i++ {
 		sym := []string{"foo", "bar", "baz"}[i]
 		content := genRowText(t, rapid.IntRange(1, 25).Draw(t, "vallen"))
+		if chancePct(t, 6, "ctrl") {
+			// a value with a byte the pager uses internally (NUL separates the rows of a page)
+			// or that means something to a terminal: values are shown as they are
+			at := uniformN(t, len(content)+1, "ctrlat")
+			content = content[:at] + []string{"\x00", "\x00", "\r", "\t", "\x1b"}[uniformN(t, 5, "ctrlv")] + content[at:]
+		}
 		lim := uint16(len(content) + uniformN(t, 10, "limslack"))
 		c.Vals = append(c.Vals, PVal{sym, content, lim})
 		c.Tpl += []string{" ", "\n", " and "}[uniformN(t, 3, "join")] + "{{." + sym + "}}"
